@@ -467,6 +467,9 @@ class Search:
         S.append([('C', i), ('H', i), ('P', i, 'x')] + [('X', i, sv, 'cur', 'OKA') for sv in svcs] + [('X', i, sv, 'cur', 'OK') for sv in svcs])
         S.append([('C', i), ('P', i, 'nobang'), ('N', i), ('u', i), ('n', i), ('U', i)] + [('X', i, sv, 'cur', 'OK') for sv in svcs] + [('H', i)])
         S.append([('C', i), ('H', i), ('P', i, 'bang')] + [('X', i, sv, 'cur', 'OKE') for sv in svcs[:1]] + [('X', i, sv, 'cur', 'NO') for sv in svcs[:1]] + [('D', i)])
+        # a retry after AGAIN must be forwarded again
+        S.append([('C', i), ('P', i, 'x')] + [('X', i, sv, 'cur', 'AGAIN') for sv in svcs[:1]] + [('P', i, 'x')] + [('X', i, sv, 'cur', 'OKA') for sv in svcs[:1]] + [('H', i)]
+                 + [('X', i, sv, 'cur', 'OK') for sv in svcs[1:]])
         if 'addr2' in proto.CLIENTS.get(i, {}):
             # the id announced from another address and port
             S.append([('C2', i), ('H', i), ('P', i, 'x')] + [('X', i, sv, 'cur', 'MORE') for sv in svcs[:1]] + [('X', i, sv, 'cur', 'OK') for sv in svcs[1:]] + [('TO', i)])
@@ -497,8 +500,9 @@ class Search:
                         conc = [c for c in (proto.render(e, ctx) for e in suf)]
                         if any(c is None for c in conc):
                             break
-                        res, status, err, ex = srv.trace(list(hist) + conc, 0)
-                        steps = res[len(hist):]
+                        res, status, err, ex = srv.trace(list(hist) + conc + [('L', '-1 ? stats\n')], 0)
+                        steps = res[len(hist):len(hist) + len(conc)]
+                        stats_lines = res[len(hist) + len(conc)].out if len(res) > len(hist) + len(conc) else None
                         outs.append((status, [tuple(_norm_line(l) for l in r.out) for r in steps]))
                         # the observer judges the continuation as well (the merged state's observer record is the starting point):
                         # a defect that needs state outside the dump shows up under the property it breaks
@@ -516,6 +520,12 @@ class Search:
                                 if inst is None and j in octx['cur'] and not (e[0] in ('C', 'C2') and e[1] == j):
                                     octx['old'][j] = octx['cur'].pop(j)
                             M = Mn
+                            if e is suf[-1] and stats_lines is not None:
+                                # bookkeeping at the end of the continuation: the daemon's own count against the observer's
+                                inuse = _stats_in_use(stats_lines)
+                                live = sum(1 for _, inst in M if inst is not None)
+                                if inuse is not None and inuse != live:
+                                    V = list(V) + [('C10.in-use', 'the daemon reports %s requests in use, the server has %d clients announced and not finished' % (inuse, live))]
                             for tag, text in V:
                                 if (tag, e) in seen_obs or tag.startswith('C06.unknown') or tag.startswith('C07.'):
                                     continue
